@@ -1,9 +1,71 @@
 import QV.Driver.Util
+import QV.Model.Framing
+import QV.Spec.Framing
 
+/-!
+  ops of group `framing` (C30).
+
+  `tcp <provider> <mode> <segments> <table>` — one TCP conversation against a real provider.
+      segments: the octets the client wrote, as it wrote them (`/`-separated hex, in order);
+      table: `req=resp` pairs (hex; `~` = no response), the real `Server::handle_message` applied to
+      each request alone (it is the `handler` parameter of the model and of the spec);
+      mode `w`: the client waited to see whether the server closes (result ends in `closed` /
+      `open`), mode `h`: it half-closed after the expected octets (result ends in `-`).
+      model: `QV.Framing.conn` on the segments; spec: `respond` on the frames of the stream.
+      result `ok <octets received> <closed|open|->`.
+  `udp <provider> <payload> <datagram> <resp|~>` — one datagram; result `ok <n> <first response>`.
+-/
 namespace QV.Driver
-open QV
+open QV QV.Framing
 
-/-- ops of group `framing` — stub (not built yet) -/
-def framingHandler : Handler := fun _ _ => none
+private def hx (s : String) : Option (List UInt8) := if s = "-" then some [] else unhexList s.toList
+
+private def parseTable (s : String) : Option (List (List UInt8 × Option (List UInt8))) :=
+  if s = "-" then some [] else
+  (s.splitOn ",").mapM fun e =>
+    match e.splitOn "=" with
+    | [a, b] => do
+      let req ← hx a
+      let resp ← if b = "~" then some none else (hx b).map some
+      pure (req, resp)
+    | _ => none
+
+/-- `none` = the request is not in the table (a harness error) -/
+private def lookup (t : List (List UInt8 × Option (List UInt8))) (m : List UInt8) : Option (Option (List UInt8)) :=
+  (t.find? (·.1 == m)).map (·.2)
+
+def framingHandler : Handler := fun op args =>
+  match op, args with
+  | "tcp", [_prov, mode, segs, table] =>
+    let segsL : Option (List (List UInt8)) :=
+      if segs = "-" then some [] else (segs.splitOn "/").mapM hx
+    match segsL, parseTable table with
+    | some sg, some t =>
+      -- every frame of the stream must be in the table
+      let frames := (QV.Spec.Framing.deframe sg.flatten).1
+      if frames.any (fun m => (lookup t m).isNone) then some bad else
+      let handler : List UInt8 → Option (List UInt8) := fun m => (lookup t m).getD none
+      let (mo, me) := conn handler sg
+      let mend := if mode = "h" then "-" else match me with
+        | .noResponse => "closed" | .eof => "open" | .full => "full" | .fuel => "fuel"
+      let (so, se) := QV.Spec.Framing.specStream handler sg.flatten
+      let send := if mode = "h" then "-" else match se with | .closed => "closed" | .open => "open"
+      some (s!"ok {hexOfList mo} {mend}", s!"ok {hexOfList so} {send}")
+    | _, _ => some bad
+  | "udp", [_prov, payload, dgram, resp] =>
+    match payload.toNat?, hx dgram,
+      (if resp = "~" then some none else (hx resp).map some) with
+    | some p, some d, some r =>
+      let handler : List UInt8 → Option (List UInt8) := fun _ => r
+      let m := match udpStep handler p d with
+        | .none => "ok 0 -"
+        | .send x => s!"ok 1 {hexOfList x}"
+        | .panic => "panic"
+      let s := match r with
+        | none => "ok 0 -"
+        | some x => if QV.Spec.Framing.udpOk p [x] then s!"ok 1 {hexOfList x}" else "err:oversize"
+      some (m, s)
+    | _, _, _ => some bad
+  | _, _ => none
 
 end QV.Driver
